@@ -221,8 +221,8 @@ partial def valueCanon : Value Float → String
   | .num x => "(n " ++ floatHex x ++ ")"
   | .bool b => if b then "(b 1)" else "(b 0)"
   | .str s => "(s " ++ strHex s ++ ")"
-  | .fnref false n => "(f N " ++ n ++ ")"
-  | .fnref true n => "(f F " ++ n ++ ")"
+  | .fnref false n _ => "(f N " ++ n ++ ")"
+  | .fnref true n _ => "(f F " ++ n ++ ")"
   | .fmtspec none => "(m -)"
   | .fmtspec (some s) => "(m " ++ strHex s ++ ")"
   | .struct info vs =>
@@ -234,8 +234,8 @@ def constCanon : Constant Float → String
   | .scalar x => "(n " ++ floatHex x ++ ")"
   | .boolean b => if b then "(b 1)" else "(b 0)"
   | .string s => "(s " ++ strHex s ++ ")"
-  | .fnref false n => "(f N " ++ n ++ ")"
-  | .fnref true n => "(f F " ++ n ++ ")"
+  | .fnref false n _ => "(f N " ++ n ++ ")"
+  | .fnref true n _ => "(f F " ++ n ++ ")"
   | .fmtspec none => "(m -)"
   | .fmtspec (some s) => "(m " ++ strHex s ++ ")"
 
